@@ -1,5 +1,7 @@
-"""C06 — see ctr_common.py (shared generator, real-code runner, oracles, model lines)."""
+"""C06 — see ctr_common.py (shared generator, real-code runner, oracles, model lines) and ctr_multi.py (C06 only:
+string-prefix related node names; histories over several open containers, oracle only)."""
 from . import ctr_common as C
+from . import ctr_multi as X
 
 ID = "C06"
 MOD = "harness.props.c06"
@@ -79,21 +81,55 @@ translate = C.translate
 
 
 def impl(case):
+    if case.get("multi"):
+        return X.impl(case, ID)
     return C.impl_for(ID, case)
 
 
 env_info = C.env_info
-lines = C.lines
+
+
+def lines(case):
+    return ["init"] if case.get("multi") else C.lines(case)
+
+
+# quick: 120 shared histories + 24 with prefix-related names + 24 over several containers (thorough: 1500 + 240 + 240)
+N_BASE = {True: 120, False: 1500}
+N_EXTRA = {True: 24, False: 240}
+
+
+def extra_cases(ctx, n=None):
+    """C06 only (generated after the shared histories; `ctx.rng`)."""
+    n = n or N_EXTRA[ctx.quick]
+    res = []
+    for i in range(n):
+        r = ctx.rng.random()
+        if r < 0.35:  # the shared generator over an alphabet of prefix-related names
+            res.append(C.gen_case(ctx.rng, quick=ctx.quick, held=True, wrappers=i % 2 == 0, names=ctx.rng.choice(X.PREFIX_ALPHABETS)))
+        else:
+            res.append(X.gen_prefix_case(ctx.rng, quick=ctx.quick, wrappers=i % 3 == 0))
+    for _ in range(n):
+        res.append(X.gen_multi_case(ctx.rng, quick=ctx.quick))
+    return res
 
 
 def run(ctx):
-    C.run_prop(ctx, ID, MOD, rule_extra=(
+    C.run_prop(ctx, ID, MOD, n_cases=N_BASE[ctx.quick], extra_cases=extra_cases, rule_extra=(
         "C06 only: about 60 % of the metadata operations go through HELD NODE WRAPPERS (op `hmeta`, `ctr_common.add_wrappers`): several "
         "live wrappers of one node, obtained by different navigation routes (mc[path], get, segment by segment, parent of a child, "
         "values() of the parent, visititems, query results, the container object itself for the root), kept across later operations "
         "(incl. move / copy / delete of the node; h5py handles follow a moved node) and used in turn, `.meta` taken afresh at each use; "
         "preferably through the wrapper that has not seen the latest changes, removing what it attached itself. To the model every "
-        "such sub-operation is one `meta` operation with a newly opened handle."))
+        "such sub-operation is one `meta` operation with a newly opened handle. Further (ctr_multi.py): histories whose node names are "
+        "STRING-PREFIX related at every level (a / a1 / a10 / ab, img / img2, run1 / run10 ...; groups and datasets side by side, "
+        "metadata on several of them, then move / copy / delete of one of them inside a random history over the same alphabet) - "
+        "ordinary cases of the model; and histories over 2-3 OPEN CONTAINERS (h5py.File / IH5Record, also mixed) with copies whose "
+        "source is a node object of ANOTHER container (datasets / groups, with / without metadata, metadata only below the group, "
+        "schemas in use / not in use in the receiving container, refused copies onto taken names, reopen / patch boundaries of "
+        "either container in between) - the model has one container, so these are judged by the direct oracle alone (Sync on the raw "
+        "tree of every container and rebuilt-vs-live index after every operation; no model lines)."))
+    ctx.assumptions.append("copies between containers are outside the Lean model (one container): checked on the real code by the "
+                           "oracle only, tagged `xcopy-*`")
 
 
 def signature(case, detail):
@@ -101,12 +137,40 @@ def signature(case, detail):
 
 
 def shrink(ctx, case, detail):
+    if case.get("multi"):
+        return X.shrink(ctx, ID, MOD, case, detail)
     return C.shrink(ctx, ID, MOD, case, detail)
 
 
 def search(ctx):
-    return C.search(ctx, ID, MOD)
+    """more seeds, oracle only: the shared histories, then the C06-only ones"""
+    from .. import core, pool
+
+    found = C.search(ctx, ID, MOD)
+    if found:
+        return found
+    for k in range(1, 3):
+        sub = core.Ctx(ID, "quick", ctx.seed + 104729 * k)
+        cases = extra_cases(sub, 60)
+        res = pool.run(MOD, "impl", cases, timeout=240)
+        ctx.search_log.append("seed %d: %d prefix-name / several-container histories, oracle only" % (sub.seed, len(cases)))
+        for c, r in zip(cases, res):
+            if "ok" in r and r["ok"]["oracle"]:
+                return shrink(ctx, c, r["ok"]["oracle"][0])
+            if "timeout" in r:
+                return c, {"kind": "does-not-terminate"}
+    return None
 
 
 def replay(ctx, rep):
+    case = rep.get("case")
+    if case and case.get("multi"):
+        from .. import core, pool
+
+        r = pool.run_one(MOD, "impl", case, timeout=240)
+        if "ok" in r:
+            print("implementation (several containers, oracle only): status/oracle:", r["ok"]["out"], core.canon(r["ok"]["oracle"])[:3000])
+        else:
+            print("implementation:", core.canon(r)[:2000])
+        return 1 if ("ok" in r and r["ok"]["oracle"]) or "timeout" in r else 0
     return C.replay(ctx, ID, MOD, rep)
